@@ -80,7 +80,7 @@ def variant(rng, contigs):
 	case = rng.choice(['upper', 'lower', 'mixed'])
 	cs = [rand_case(rng, S.revcomp(contigs[i]) if orient[i] else contigs[i], case) for i in order]
 	lay = dict(orient=orient, order=order, case=case, width=rng.choice(WIDTHS), eol=rng.choice(['\n', '\r\n']), final_newline=rng.random() < 0.7,
-	           gz=rng.random() < 0.5, ext=rng.choice(EXTS), compression=None)
+	           gz=rng.choice([False, False, True, True, 'multi']), ext=rng.choice(EXTS), compression=None)
 	lay['compression'] = rng.choice(['auto', 'auto', 'explicit'])
 	return cs, lay
 
@@ -114,9 +114,9 @@ def check_variant(ctx, ks, k, prefix, contigs, exp, cs, lay, gid, vid, base_sig=
 		ctx.notes['fd_leak_example'] = dict(layout=lay, before=fd0, after=fd1)
 	ctx.case(('v', k, prefix.decode(), [c.hex() for c in cs][:8], sorted(lay.items(), key=str)), nontrivial=len(exp) > 0,
 	         sample=dict(k=k, prefix=prefix.decode(), contig_lengths=[len(c) for c in contigs], layout=lay, expected_signature_len=len(exp)) if vid == 0 and gid < 2 else None)
-	ctx.count(f'width:{lay["width"]}'); ctx.count(f'eol:{"CRLF" if lay["eol"] == chr(13) + chr(10) else "LF"}'); ctx.count(f'gz:{lay["gz"]}/ext:{lay["ext"] or "none"}')
+	ctx.count(f'width:{lay["width"]}'); ctx.count(f'eol:{"CRLF" if lay["eol"] == chr(13) + chr(10) else "LF"}'); ctx.count(f'gz:{lay["gz"]}/ext:{lay["ext"] or "none"}'); ctx.count(f'gz:{lay["gz"]}')
 	ctx.count(f'case:{lay["case"]}'); ctx.count(f'compression_arg:{lay["compression"]}')
-	if lay['gz'] != lay['ext'].endswith('.gz'):
+	if bool(lay['gz']) != lay['ext'].endswith('.gz'):
 		ctx.count('extension_disagrees_with_content')
 	if not isinstance(got, np.ndarray) or got.dtype != np.dtype(S.dtype_for(k)) or got.tolist() != exp:
 		gl = got.tolist() if isinstance(got, np.ndarray) else got
@@ -218,7 +218,7 @@ def run_cli(sh, ctx, rng):
 def finalize(merged, tier, seed, inconclusive):
 	c = merged['counters']
 	need = ['width:1', 'width:0', 'width:61', 'eol:CRLF', 'eol:LF', 'case:mixed', 'case:lower', 'compression_arg:explicit', 'extension_disagrees_with_content',
-	        'genomes_where_concatenation_would_differ', 'orientation_order_exhaustive_genomes', 'cli_commands', 'broken_files_raised']
+	        'genomes_where_concatenation_would_differ', 'orientation_order_exhaustive_genomes', 'cli_commands', 'broken_files_raised', 'gz:multi']
 	for n in need:
 		if c.get(n, 0) == 0:
 			inconclusive.append(f'class never observed: {n}')
